@@ -26,6 +26,8 @@ var c10enzymes = []c10enz{
 	{"BtgZI", "GCGATG", 10, 4, true},
 	{"SapI-like", "GCTCTTC", 1, 3, false},
 	{"BbvI-like", "GCAGC", 8, 4, false}, // odd length, outer bases mirror each other, not a palindrome
+	{"HphI-like", "GGTGA", 8, 1, false}, // one-base overhang
+	{"FauI-like", "CCCGC", 4, 2, false}, // two-base overhang
 	{"BspMI-like", "ACCTGC", 4, 4, false},
 	{"FokI-like", "GGATG", 9, 4, false},
 }
@@ -199,7 +201,7 @@ func c10units(tier string) []mc.Unit {
 	if thorough {
 		gapVals = []int{0, 1, 7, 23}
 	}
-	enz := c10enzymes[:5]
+	enz := c10enzymes[:7]
 	if thorough {
 		enz = c10enzymes
 	}
